@@ -11,7 +11,10 @@ Checked on the recorded run:
 * C02: the delivered stream against the simulated partition log (Lean monitors `increasingOk`,
   `noOverlapOk`, `noGapOk`/`completeOk` on a trace rebuilt from the recording: offsets, keys, values as stored);
 * C03: every offset the coordinator stored was processed successfully before; a consumer restarted from
-  the stored offset gets exactly the first message after it;
+  the stored offset asks for (and gets) exactly the first message after it; `last_committed_offset` only ever
+  holds a value the coordinator acknowledged (an OffsetCommit answered with error 0, or the offset an
+  OffsetFetch answered with error 0) - also when the coordinator answers COORDINATOR_LOAD_IN_PROGRESS /
+  NOT_COORDINATOR / COORDINATOR_NOT_AVAILABLE to an OffsetFetch or OffsetCommit;
 * C13: after stop()/shutdown completed: no fetch/commit request of this consumer reaches a broker, the
   processor is not invoked, no delayed call of the consumer is left; the start Deferred fired once;
 * C14: the buffer announced in successive fetch requests follows the growth rule (Lean `growthOk`).
@@ -85,6 +88,11 @@ def gen_spec(rng):
                    for _ in range(rng.randrange(0, 3))],
         "script": rng.choice(["run", "run", "stop-restart", "shutdown-restart", "commit-stop-resume", "stop-early"]),
         "api_versions": rng.choice(["default", "default", "old"]),
+        # coordinator answers an OffsetFetch / OffsetCommit with a retriable coordinator error (group runs only)
+        "group_fault": rng.choice([None, None, None, ["OffsetFetch", 14], ["OffsetFetch", 14], ["OffsetFetch", 15], ["OffsetFetch", 16],
+                                   ["OffsetCommit", 14], ["OffsetCommit", 14], ["OffsetCommit", 15], ["OffsetCommit", 16]]),
+        "group_fault_nth": rng.choice([1, 1, 2]),
+        "prestored": rng.random() < 0.4,
     }
 
 
@@ -129,7 +137,18 @@ def run_spec(spec):
                 c.inject(f, api="Fetch", nth=nth)
             elif f == "delay":
                 c.inject("delay", api="Fetch", seconds=0.7, nth=nth)
+        gf = spec.get("group_fault")
+        if gf and spec["group"]:
+            c.inject("error", api=gf[0], code=gf[1], nth=spec.get("group_fault_nth", 1))
+        if spec.get("prestored") and spec["group"] and offs:
+            # an offset committed by an earlier incarnation of this consumer
+            pre = rng.choice(offs)
+            c.offsets[("g", TOPIC, 0)] = dict(t=0.0, group="g", topic=TOPIC, partition=0, offset=pre, metadata="", generation=-1,
+                                              member="", broker=c.coordinator_of("g"), conn=None, corr=None)
+            out["prestored"] = pre
         co = make_consumer(cl, TOPIC, 0, rec, name="c", behaviour=behaviour, **kw)
+        out["committed_at_start"] = {"start#1": c.committed("g", TOPIC, 0) if spec["group"] else None}
+        out["lc_samples"] = []
         rec.call("start#1", co.start, start_off)
         t_end = 12.0
         step = 0.25
@@ -141,6 +160,7 @@ def run_spec(spec):
         while t < t_end:
             c.advance(step)
             t += step
+            out["lc_samples"].append((c.clock.seconds(), co.last_committed_offset))
             if "leader_move" in spec["faults"] and not moved and t >= 0.5 and spec["brokers"] > 1:
                 moved = True
                 cur = c.leader_of(TOPIC, 0)
@@ -172,6 +192,7 @@ def run_spec(spec):
                 lp = co.last_processed_offset
                 if spec["group"] and out.get("committed_at_stop") is not None and out["committed_at_stop"] >= 0:
                     out["resume_from"] = ("committed", out["committed_at_stop"])
+                    out["committed_at_start"]["start#2"] = c.committed("g", TOPIC, 0)
                     rec.call("start#2", co.start, -101)
                 else:
                     out["resume_from"] = ("numeric", (lp + 1) if lp is not None else (offs[0] if offs else 0))
@@ -181,6 +202,7 @@ def run_spec(spec):
         if co._start_d is not None:
             rec.call("stop#final", co.stop)
         out["t_final_stop"] = c.clock.seconds()
+        out["lc_samples"].append((c.clock.seconds(), co.last_committed_offset))
         c.advance(3.0)  # nothing may happen any more
         out["delayed_after"] = [repr(getattr(dc.func, "__qualname__", dc.func)) for dc in c.clock.getDelayedCalls()
                                 if "Consumer" in repr(getattr(dc.func, "__qualname__", "")) or "LoopingCall" in repr(dc.func)]
@@ -323,6 +345,37 @@ def analyse(spec, out):
                     continue
                 if off not in done and off >= 0:
                     probs.append(("C03", "commit request for offset %d which had not been processed successfully (processed: %s)" % (off, sorted(done)[-5:])))
+        # last_committed_offset only holds what the coordinator acknowledged
+        acks = []
+        for r in reqs:
+            try:
+                if r["api"] == "OffsetCommit" and r.get("response"):
+                    if r["response"]["topics"][0]["partitions"][0]["error_code"] == 0:
+                        acks.append((r["t"], r["request"]["topics"][0]["partitions"][0]["offset"]))
+                elif r["api"] == "OffsetFetch" and r.get("response"):
+                    pr = r["response"]["topics"][0]["partitions"][0]
+                    if pr["error_code"] == 0 and pr["offset"] >= 0:
+                        acks.append((r["t"], pr["offset"]))
+            except (KeyError, IndexError, TypeError):
+                continue
+        for ts, lc in out.get("lc_samples", []):
+            if lc is not None and not any(t0 <= ts + 1e-9 and o == lc for t0, o in acks):
+                probs.append(("C03", "last_committed_offset = %s at t=%.2f but the coordinator never acknowledged that offset (acknowledged: %s; stored now: %s)"
+                              % (lc, ts, sorted({o for _, o in acks})[-4:], out["stored"])))
+                break
+        # a start from the committed offset asks for the message after the stored offset
+        issued = {e["label"]: e["n"] for e in evs if e["kind"] == "issued" and e.get("label", "").startswith("start#")}
+        for label, stored in (out.get("committed_at_start") or {}).items():
+            is_committed_start = (label == "start#1" and out["start_off"] == -101) or (label == "start#2" and out.get("resume_from", ("", 0))[0] == "committed")
+            if not is_committed_start or stored is None or stored < 0 or label not in issued:
+                continue
+            nxt = min([n for l, n in issued.items() if n > issued[label]] + [10 ** 12])
+            fetches = [r for r in reqs if r["api"] == "Fetch" and issued[label] < r["n"] < nxt]
+            if fetches:
+                off, _ = _fetch_offsets(fetches[0])
+                if off is not None and off != stored + 1:
+                    probs.append(("C03", "%s from the committed offset: the coordinator holds %d, the first fetch asks for offset %d (expected %d)"
+                                  % (label, stored, off, stored + 1)))
         rf = out.get("resume_from")
         if rf and rf[0] == "committed":
             after = [e for e in procs if e["t"] >= out["t_start2"] - 1e-9]
